@@ -233,6 +233,11 @@ func (x *Exec) load(st *State, p *Pointer, t types.Type) *Value {
 	return buildValue(t, func(l Leaf) *Term {
 		key, stored, idxs := x.leafKey(p, l)
 		arr := x.heapArr(st, key, stored)
+		if strings.HasSuffix(key, "#off") && len(p.Path) == 0 && x.zeroOffBases != nil && x.zeroOffBases[p.Base.String()] {
+			// a slice variable the closure under verification captures, under its `zerooffsets` clause: every store
+			// to it is obliged to store offset 0 (instr.go), the enclosing function's initial value is assumed to
+			return IntLit(0)
+		}
 		if strings.HasSuffix(key, "#off") && arr.Op == "const" && strings.HasPrefix(arr.Name, "H0_") {
 			// slices in the entry heap start at offset 0 (offsetAssumption); using the literal keeps
 			// element indices free of symbolic offsets
